@@ -166,8 +166,13 @@ func (x *Exec) model(st *State, fr *Frame, dst ssa.Value, callee *ssa.Function, 
 		x.unlock(st, fr, args[0], true, pos)
 	case "(*sync.WaitGroup).Add":
 		r := x.refOf(args[0])
-		wg := st.ghostArr("wg", SInt)
 		x.siteAsserts(st, fr, "wgadd:"+x.argPath(fr, 0), pos)
+		if args[0].FP == nil || !st.FreshRefs[args[0].FP.Base.Op] {
+			x.interfere(st, "WaitGroup.Add") // an atomic step on shared state: whatever no held lock protects may have moved
+		}
+		wgBefore := copyHeap(st.Heap)
+		defer x.checkWgGuarantee(st, args[0], wgBefore, "add", pos)
+		wg := st.ghostArr("wg", SInt)
 		st.Assume(Ge(Select(wg, r), IntLit(0)))
 		nv := Add(Select(wg, r), args[1].Term)
 		k := x.site(st, "wgadd")
@@ -663,6 +668,7 @@ func (x *Exec) interfere(st *State, why string) {
 	beforeEpoch := st.Epoch
 	changed := false
 	quiescent := x.quiescent(st)
+	var relyTypes []string
 	var tcs []string
 	for k := range x.V.C.Types {
 		tcs = append(tcs, k)
@@ -778,6 +784,15 @@ func (x *Exec) interfere(st *State, why string) {
 			}
 		}
 		if changed && len(tc.Relies) > 0 {
+			relyTypes = append(relyTypes, tk)
+		}
+	}
+	// the relies are stated between the state before and the state after the whole interference step (they may
+	// mention channel and wait-group ghost state): assumed at the end
+	defer func() {
+		for _, tk := range relyTypes {
+			tc := x.V.C.Types[tk]
+			root := x.V.namedByName(tk)
 			r := BoundVar("r", SInt)
 			env := &Env{V: x.V, X: x, St: st, Vars: map[string]*Val{}, Pkg: x.V.P.TPkgs[tc.Pkg], Epoch: st.Epoch, OldHeap: before, OldEpoch: beforeEpoch}
 			env.Vars[tc.Self] = &Val{T: types.NewPointer(root), Term: r}
@@ -785,7 +800,7 @@ func (x *Exec) interfere(st *State, why string) {
 				st.Assume(Forall([]*Term{r}, x.V.evalBool(env, rc.E)))
 			}
 		}
-	}
+	}()
 	// channels: closed is monotone; channels owned by held monitors and fresh channels are untouched
 	cl := st.ghostArr("closed", SBool)
 	ncl := Fresh("if$closed", ArrSort(SInt, SBool))
@@ -880,6 +895,36 @@ func (x *Exec) interfere(st *State, why string) {
 	}
 	st.Trace = append(st.Trace, "interference@"+why)
 	x.assumeStrong(st)
+}
+
+// checkWgGuarantee: a change of a WaitGroup that is a field of a type with relies must respect them (relies may
+// speak about wg(...), e.g. "no new tokens once closed"): checked as a two-state obligation around the operation.
+func (x *Exec) checkWgGuarantee(st *State, wgv *Val, before map[string]*Term, what string, pos token.Pos) {
+	if wgv.FP == nil || st.FreshRefs[wgv.FP.Base.Op] {
+		return
+	}
+	tc := x.V.C.Types[typeName(wgv.FP.Root)]
+	if tc == nil || len(tc.Relies) == 0 {
+		return
+	}
+	uses := false
+	for _, rc := range tc.Relies {
+		if strings.Contains(rc.Text, "wg(") {
+			uses = true
+		}
+	}
+	if !uses {
+		return
+	}
+	env := &Env{V: x.V, X: x, St: st, Vars: map[string]*Val{}, Pkg: x.V.P.TPkgs[tc.Pkg], Epoch: st.Epoch, OldHeap: before, OldEpoch: st.Epoch}
+	env.Vars[tc.Self] = &Val{T: types.NewPointer(wgv.FP.Root), Term: wgv.FP.Base}
+	k := x.site(st, "wgguarantee:"+what)
+	for _, rc := range tc.Relies {
+		if !strings.Contains(rc.Text, "wg(") {
+			continue
+		}
+		x.oblige(st, "monitor", fmt.Sprintf("monitor:guarantee:%s@wg%s:%s#%d", rc.Label, what, wgv.FP.Path[0], k), x.V.evalBool(env, rc.E), pos, rc.Text)
+	}
 }
 
 // holdsLockClass: the thread holds a lock that is monitor "pkg.Type.lockfield" of some object (in write mode if asked).
